@@ -357,7 +357,17 @@ static void run_op(DocWorld &w, const Op &op)
 	    if (rc != 0 || crc != 0) { c.violate("model", "export:rc", strf("fault-free export failed (rc %d, errno %s)", rc, errno_name(lc.saved_errno))); return; }
 	    if (ncb) { c.violate("model", "export:callback", "callback on a successful export: " + cbmsg); return; }
 	    // (also when a fault fired without making the call fail: success must mean a whole file)
-	    if (fired) c.count("probe.export_ok_despite_fault");
+	    if (fired) {
+		c.count("probe.export_ok_despite_fault");
+		// read the file back at once (the script may overwrite it before anything imports it)
+		vnaproperty_t *tmp = nullptr;
+		int irc;
+		{ LibCall lc2(c); std::string text = simfs()[name]; irc = vnaproperty_import_yaml_from_string(&tmp, text.c_str(), nullptr, nullptr); lc2.done(); }
+		std::string back = irc == 0 ? real_digest(c, tmp) : std::string("(does not import)");
+		{ LibCall lc2(c); vnaproperty_delete(&tmp, "."); lc2.done(); }
+		if (c.violated) return;
+		if (back != dnode_digest(m)) { c.violate("model", "export:file", strf("an export that reported success although a stream fault fired left a file of %zu bytes that reads back as %s, the tree is %s", simfs()[name].size(), back.c_str(), dnode_digest(m).c_str())); return; }
+	    }
 	    w.files[name] = m;
 	    w.files_ok.insert(name);
 	    c.count("probe.export_ok");
@@ -371,6 +381,8 @@ static void run_op(DocWorld &w, const Op &op)
 	if (!simfs().count(name)) return;
 	bool cb = op.I(1) != 0;
 	bool into_empty = w.roots[ri] == nullptr;
+	// importing a document into a tree that already equals it (the same file a second time, a tree's own export) must leave that tree
+	bool same_again = !into_empty && w.files_ok.count(name) && dnode_digest(m) == dnode_digest(w.files[name]);
 	int rc = -1;
 	bool fired = false, storage_fault = false;
 	size_t ncb = 0;
@@ -422,7 +434,8 @@ static void run_op(DocWorld &w, const Op &op)
 	if (c.violated) return;
 	// a stream that ends early or errors hands the library different (possibly still valid) text;
 	// an allocation failure does not: there a call that reports success must have the full effect
-	if ((!fired || (rc == 0 && !storage_fault)) && w.files_ok.count(name) && into_empty) {
+	if ((!fired || (rc == 0 && !storage_fault)) && w.files_ok.count(name) && (into_empty || (same_again && !fired))) {
+	    if (same_again) c.count("probe.import_again_into_the_same_tree");
 	    if (fired) c.count("probe.import_ok_despite_fault");
 	    m = w.files[name];
 	    c.count("probe.import_ok");
